@@ -5,7 +5,7 @@ import random
 from noiseref import model, prims, selftest
 from noiseref.patterns import CIPHERS, DHS, HASHES, all_names, all_variants, make_name, parse_name_simple
 
-from .. import core, sessions
+from .. import core, faults, sessions
 from ..script import Case, gen_bytes, hx
 from ..shadow import Shadow
 
@@ -59,12 +59,16 @@ class CheckC01(core.Check):
                 descs.append(("ss", n, rnd.getrandbits(32)))
             for n in rnd.sample(names, 1500):
                 descs.append(("mp", n, rnd.getrandbits(32), rnd.choice("ir")))
+            for n in rnd.sample(names, 3000):
+                descs.append(("fl", n, rnd.getrandbits(32)))
         else:
             for n in names:
                 for _ in range(6):
                     descs.append(("ss", n, rnd.getrandbits(32)))
                 for role in "ir":
                     descs.append(("mp", n, rnd.getrandbits(32), role))
+                for _ in range(2):
+                    descs.append(("fl", n, rnd.getrandbits(32)))
         try:
             nvec = len(json.load(open(VEC_PATH))["vectors"])
             for i in range(nvec):
@@ -81,6 +85,8 @@ class CheckC01(core.Check):
             return self._build_ss(desc)
         if kind == "mp":
             return self._build_mp(desc)
+        if kind == "fl":
+            return self._build_fl(desc)
         return self._build_vec(desc)
 
     def _inputs(self, parsed, rnd):
@@ -120,6 +126,26 @@ class CheckC01(core.Check):
         rekey_at = tuple(i for i in range(len(plan)) if rnd.random() < 0.2)
         sessions.add_transport(c, parsed, [(d, "gen:%d:tp%d.%d" % (ln, seed, i)) for i, (d, ln) in enumerate(plan)], stateless=stateless, nonces=nonces, rekey_at=rekey_at)
         c.info = {"name": name, "mode": "ss", "shape": (tuple(_cls(x) for x in pays), len(plan), stateless, res)}
+        return c
+
+    def _build_fl(self, desc):
+        """a session with injected failing calls and retries: every SUCCESSFUL message must still be the specification's
+        (the model ignores the failed calls)"""
+        _, name, seed = desc
+        rnd = random.Random(seed)
+        parsed = parse_name_simple(name)
+        c = Case("fl-%s-%d" % (name, seed), desc)
+        res = (rnd.choice(["D", "D", "R", "DR"]), rnd.choice(["D", "D", "R", "DR"]))
+        h = faults.History(c, name, seed, "script", res=res, rec=("r", "r"), twin=False, transport=rnd.choice(["tr", "sl", "mixA", "mixB"]))
+        maxp = sessions.max_payloads(parsed)
+        paylens = [min(m, rnd.choice([0, 1, 5, 16, 33, 100])) for m in maxp]
+        plan, ma, mb = faults.random_fault_plan(parsed, paylens, rnd, nslots=rnd.choice([1, 2, 3]), consecutive=rnd.choice([1, 2]))
+        h.setup(missing_a=ma, missing_b=mb, prologue=sessions.prologue_choice(rnd, 32, 64))
+        h.handshake(paylens, plan)
+        h.convert()
+        h.transport_phase(rnd, nmsgs=3, fault_rate=0.3, rekeys=True)
+        h.done()
+        c.info = {"name": name, "mode": "fl", "shape": (tuple(paylens), len(plan), h.transport)}
         return c
 
     def _build_mp(self, desc):
@@ -248,7 +274,10 @@ class CheckC01(core.Check):
                 elif v.kind in ("nojudge", "unspec"):
                     unjudged += 1
             for d in v.devs:
-                if d.aspect in OWN:
+                if d.aspect == "res" and v.kind == "must_err":
+                    # a call that should have failed returned Ok: C14 / C03 / C11 / C09 own that, not wire conformance
+                    r.foreign_dev("C14/C03/C11", "%s returned Ok where an error was due" % d.op)
+                elif d.aspect in OWN:
                     idx = ""
                     sig = "C01|%s|%s|%s" % (d.aspect, d.op, variant)
                     r.viol(sig, "%s: %s %s on %s: %s" % (name, d.op, d.label, d.party, d.msg))
